@@ -44,7 +44,9 @@ CLAIMED = {
     "C17": dict(
         technique="TLA+ denotation of the documented orders + model of _sort_custom's integer keys, exhaustive TLC check on "
                   "small lists, cases replayed on real Tract/TRS containers, TLC trace validation of every observed order",
-        text="TLC checks for every list up to 3 elements over valid/error/undefined components and every legal key (incl. "
+        text="(The same sort is also reached through key lists, group_by(sort_key=), sort_grouped(), unpack_group(sort_key=) "
+             "and grouping a second batch into= sorted groups: one validated record per group.) "
+             "TLC checks for every list up to 3 elements over valid/error/undefined components and every legal key (incl. "
              ".rev, two keys) that successive stable passes on the code's integer keys (north negative, max+1 for missing "
              "numbers) give exactly the documented multi-key order, a permutation with invalid components last; every such "
              "case, 45 illegal-key cases and thousands of random lists (2..8 elements, 1..3 keys, rendered key spellings) are "
@@ -143,7 +145,10 @@ CLAIMED = {
              "histories plus random longer ones (set/restore MasterConfig, clear/disable/pre-warm the cache, parse other "
              "descriptions, mutate dicts/lists returned by 6 conversion paths) is executed, each probe's complete outcome "
              "hashed; the trace spec replays MasterConfig through the events and requires one outcome per Pure(probe, "
-             "MasterConfig) across all histories and the 32 fresh-interpreter reference runs.",
+             "MasterConfig) across all histories and the fresh-interpreter reference runs (every probe x 4 MasterConfig values). "
+             "Further actions: objects the caller keeps (a description created with wait_to_parse, a tract, a Config object "
+             "handed to several entry points), layout questions, dry runs (commit=False) on kept objects; the model-checking "
+             "runs use a VIEW that hides all but the last entry of the history.",
         note="Trusted: probe projections; reset of global state between histories in the workers. Tract.__UID is not "
              "observable through the probes (creation order only matters for 'i' sorting, C17).",
         design_ref="§5.9, §6 C15"),
@@ -157,7 +162,13 @@ CLAIMED = {
              "each case and random lists of 2..8 elements are executed on TractList / TRSList / PLSSDesc, group_by / "
              "group_by_nested / unpack_group on 1..3 attributes, and 8 entry paths x 2 containers x 10 element kinds alone "
              "and mixed; TLC compares selected / remaining / grouped elements with the denotation and applies the decision "
-             "table 'all acceptable => every element stored, converted, in order; otherwise TypeError'.",
+             "table 'all acceptable => every element stored, converted, in order; otherwise TypeError'. A second model "
+             "(ContainerSM) treats the container as a mutable sequence under sequences of calls (append, extend, +=, +, "
+             "reflected +, *=, *, insert, pop, __setitem__, reverse, copy, to_standard_list, slicing, filter, ==) with a derived "
+             "container and a handed-out plain list: TLC checks atomicity of refused calls, independence of the three lists "
+             "and the entry clauses (three injected faults are caught), behaviours of one call (thorough: two), TLC-simulated "
+             "behaviours of 8 calls and random histories are executed and every call is validated as one record (lists "
+             "before, call, lists after, exception, returned value).",
         note="Trusted: construction of elements from abstract shapes, identity-based position reporting (repeated instances "
              "share a representative). Group order in the returned dict is not claimed. A dict passed to from_multiple is "
              "an iterable of its keys and is not generated (R3).",
